@@ -225,19 +225,19 @@ Proof.
 Qed.
 
 
-Notation reach_run := (Theorems.reach_run H).
+Notation reach_run := (Theorems.reach_run H H_len).
 
 (* ================= the machine accepts new commits ================= *)
 Theorem backlog_is_committed c nv s :
   c_prealloc c = false -> 0 < c_thld c -> reach H c nv s ->
-  phase_ s = PIdle -> committed s < precommitted s ->
+  phase_ s = PIdle -> asize s = precommitted s -> committed s < precommitted s ->
   exists s', run s (sync_cycle nv) = Ok s' /\ reach H c nv s' /\
     committed s' = precommitted s /\ acked s' = precommitted s /\ precommitted s' = precommitted s /\
     phase_ s' = PIdle /\ asize s' = asize s.
 Proof.
-  intros Hp Ht R Ep Hlt. destruct (reach_Inv H H_len _ _ _ Hp Ht R) as (_ & h & d & I & _).
+  intros Hp Ht R Ep Has Hlt. destruct (reach_Inv H H_len _ _ _ Hp Ht R) as (_ & h & d & I & _).
   destruct (sync_cycle_ok nv s h d I Ep Hlt) as (s' & E & _ & F1 & F2 & F3 & F4 & F5 & _).
-  exists s'. split; [exact E|]. split; [eapply reach_run; eauto|]. auto.
+  exists s'. split; [exact E|]. split; [exact (proj1 (reach_run c nv s _ s' Hp Ht R Has E))|]. auto.
 Qed.
 
 Theorem accepts_new_commits c nv s dd payload f0 :
@@ -257,7 +257,7 @@ Proof.
   rewrite <- Ec in Hact.
   destruct (commit_ok nv s h d dd payload f0 I Ep Has Hact Ef G1 G2 G3 G4 G5)
     as (s' & h' & d' & E & _ & F1 & _ & _ & F4 & F5 & F6).
-  exists s'. split; [exact E|]. split; [eapply reach_run; eauto|]. auto.
+  exists s'. split; [exact E|]. split; [exact (proj1 (reach_run c nv s _ s' Hp Ht R Has E))|]. auto.
 Qed.
 
 (* ================= crash during recovery ================= *)
